@@ -1338,6 +1338,13 @@ class Interp:
                 return fn(*args, **kwargs)
             except Exception as ex:  # pylint: disable=W0718
                 raise Raised(type(ex).__name__)
+        if ckey in ("os.path.isabs", "os.path.normpath", "os.path.splitext", "os.path.dirname", "os.path.basename", "os.path.join") and args and all(
+                isinstance(a, str) for a in args) and not kwargs and "os" not in frame:
+            # pure string functions of os.path on concrete strings
+            try:
+                return getattr(os.path, ckey.rsplit(".", 1)[1])(*args)
+            except Exception as ex:  # pylint: disable=W0718
+                raise Raised(type(ex).__name__)
         if ckey == "itertools.count" and not any(isinstance(a, (Residual, Obj)) for a in args):
             # an unbounded counter: enough values for any loop the budget allows (a loop that exhausts them is undecidable anyway)
             start = args[0] if args else 0
